@@ -188,27 +188,25 @@ theorem try_send_never_overtakes (s : H) (hc : s.closing = false) (hq : s.sqCoun
 /-- every buffer obtained from alloc_cb during one `uv__udp_recvmsg` is handed back by exactly one recv_cb
 that is not a UV_UDP_MMSG_CHUNK callback (the final UV_UDP_MMSG_FREE callback in recvmmsg mode; the data /
 nread = 0 / error callback otherwise), before the next alloc_cb; chunk callbacks only point inside the
-outstanding buffer; a refused allocation gets exactly one UV_ENOBUFS callback without buffer.
-Hypotheses on the user: no uv_udp_recv_stop from inside a MMSG_CHUNK callback (see `recv_stop_in_chunk_leaks`)
-and alloc_cb does not stop the handle. -/
-theorem recv_buffer_handed_back_once {σ : Type} (u : RecvUser σ) (hC : NoStopInChunk u) (hA : AllocKeeps u)
-    (s : σ) (q : List RItem) (hs : u.recvSet s = true) :
+outstanding buffer; a refused allocation gets exactly one UV_ENOBUFS callback without buffer.  For every
+user behaviour — including uv_udp_recv_stop / uv_close from inside any callback — every receive queue and
+every buffer size. -/
+theorem recv_buffer_handed_back_once {σ : Type} (u : RecvUser σ) (s : σ) (q : List RItem) :
     ∃ n, runP ⟨0, .idle⟩ (recvmsg u s q).evs = some ⟨n, .idle⟩ :=
-  recvLoop_paired u hC hA 32 0 32 s q [] hs rfl
+  recvLoop_paired u 32 0 32 s q [] rfl
 
 /-- a user that stops receiving in a chunk callback -/
 def stopper : RecvUser Bool where
   alloc s := (s, 2 * DGRAM_MAX)
-  cb _ a := !hasChunk a.flags
+  cb s a := s && !hasChunk a.flags
   recvSet s := s
   fdOpen _ := true
   mmsg _ := true
 
-/-- the hypothesis is needed: calling uv_udp_recv_stop inside a UV_UDP_MMSG_CHUNK callback makes libuv skip
-the UV_UDP_MMSG_FREE callback (udp.c:200, 214): the buffer is never handed back -/
-theorem recv_stop_in_chunk_leaks :
-    runP ⟨0, .idle⟩ (recvmsg stopper true [.dg ⟨10, false, 1⟩, .dg ⟨20, false, 2⟩]).evs
-      = some ⟨1, .owed (2 * DGRAM_MAX)⟩ := by decide
+/-- non-vacuity: uv_udp_recv_stop inside the first UV_UDP_MMSG_CHUNK callback: the second datagram is dropped
+(the user stopped) but the buffer still comes back through UV_UDP_MMSG_FREE (the former defect skipped it) -/
+example : (recvmsg stopper true [.dg ⟨10, false, 1⟩, .dg ⟨20, false, 2⟩]).evs =
+    [.alloc 131072, .cb ⟨10, some ⟨0, 0, 65536⟩, 1, 8⟩, .cb ⟨0, some ⟨0, 0, 131072⟩, 0, 16⟩] := by decide
 
 /-- non-vacuity for the positive theorem: RECVMMSG handle, 3 chunks of room, two datagrams then EAGAIN -/
 def plainUser (mm : Bool) (len : Nat) : RecvUser Unit where
